@@ -45,9 +45,9 @@ type hRow struct {
 	present           bool
 	purposeRevocation bool
 	bits              [hListBytes]byte
-	createdAt         int64
+	createdAt         int64 // now, or older than the 15 minutes after which an external list is refreshed
 	hasExpires        bool
-	expires           int64
+	expires           int64 // shortly before or long after now
 }
 
 // hRemote is what the URL serves - all facts symbolic.
@@ -90,15 +90,6 @@ func hSymBits(tag string) (b [hListBytes]byte) {
 	return
 }
 
-const hTimeBound = int64(1) << 34
-
-func hSymUnix(tag string) int64 {
-	vTag(tag)
-	s := vI64()
-	vAssume(s >= 0 && s <= hTimeBound)
-	return s
-}
-
 func hNewWorldC() *hWorldC {
 	w := &hWorldC{}
 	for u := 0; u < hNURL; u++ {
@@ -108,10 +99,13 @@ func hNewWorldC() *hWorldC {
 		vTag("row.revocation")
 		r.purposeRevocation = vBool()
 		r.bits = hSymBits("row.bits")
-		r.createdAt = hSymUnix("row.createdAt")
+		vTag("row.aged")
+		aged := vBool()
 		vTag("row.hasExpires")
 		r.hasExpires = vBool()
-		r.expires = hSymUnix("row.expires")
+		vTag("row.expired")
+		expired := vBool()
+		r.createdAt, r.expires = hRowTimes(aged, expired)
 		m := &w.remote[u]
 		vTag("remote.downloadOK")
 		m.downloadOK = vBool()
@@ -133,17 +127,27 @@ func hNewWorldC() *hWorldC {
 	}
 	vTag("createFails")
 	w.createFails = vBool()
-	w.now = hSymUnix("now")
+	w.now = hNow
 	hC = w
 	return w
 }
 
-func vhNow() time.Time {
-	if hC == nil {
-		return time.Unix(hSymUnix("now"), 0)
+// The refresh policy (when a stored list is considered stale) is not part of the claim, so the clock is fixed and the
+// stored list's timestamps take two values each: created now / 1000 s ago, expires 1 s ago / in 1000 s.
+const hNow = int64(1700000000)
+
+func hRowTimes(aged, expired bool) (createdAt, expires int64) {
+	createdAt, expires = hNow, hNow+1000
+	if aged {
+		createdAt = hNow - 1000
 	}
-	return time.Unix(hC.now, 0)
+	if expired {
+		expires = hNow - 1
+	}
+	return
 }
+
+func vhNow() time.Time { return time.Unix(hNow, 0) }
 
 func hURLIndex(s string) int {
 	for u := 0; u < hNURL; u++ {
@@ -311,11 +315,6 @@ func hNewStatusList() *StatusList2021 {
 	return &StatusList2021{db: &gorm.DB{}, VerifySignature: hVerifySignature}
 }
 
-// reference reading of a status list: MSB first
-func hRefBit(b [hListBytes]byte, j int) bool {
-	return b[j/8]&(0x80>>uint(j%8)) != 0
-}
-
 func hAndC(a, b bool) bool { return a && b }
 func hOrC(a, b bool) bool  { return a || b }
 func hAllC(a ...bool) bool {
@@ -331,9 +330,24 @@ func (m hRemote) acceptable() bool {
 	return hAllC(m.downloadOK, m.wellFormed, m.expandOK, m.sigOK, m.subjectMatches)
 }
 
-// status list index pool: in range (0, 5, 15), out of range (16), negative, not a number
-var hIndexes = []string{"0", "5", "15", "16", "-1", "x"}
-var hIndexValue = []int{0, 5, 15, 16, -1, -1}
+// The status list index is a two-character string of arbitrary bytes ("07", "15", "42", "-3", "+1", "x1", ...).
+// hRefIndex is the reference reading: an optional sign followed by decimal digits.
+func hRefIndex(c0, c1 byte) (valid bool, value int) {
+	d0, d1 := int(c0)-'0', int(c1)-'0'
+	isD0 := hAndC(d0 >= 0, d0 <= 9)
+	isD1 := hAndC(d1 >= 0, d1 <= 9)
+	signed := hOrC(c0 == '-', c0 == '+')
+	valid = hAndC(isD1, hOrC(isD0, signed))
+	value = vIte(isD0, d0*10+d1, vIte(c0 == '-', -d1, d1))
+	return
+}
+
+// reference reading of bit j of a two-byte list for symbolic j in range: MSB first
+func hRefBitSym(b [hListBytes]byte, j int) bool {
+	x := vIte(j < 8, int(b[0]), int(b[1]))
+	k := vIte(j < 8, j, j-8)
+	return (x>>uint(7-k))&1 == 1
+}
 
 const (
 	hOutcomeContinue = iota
@@ -350,20 +364,36 @@ func H11c() {
 	c.ID = &id
 	kind := make([]int, n) // 0 = StatusList2021Entry for revocation, 1 = StatusList2021Entry for another purpose, 2 = another type
 	url := make([]int, n)
-	idx := make([]int, n)
+	idx := make([][]byte, n)
+	firstURL := true
 	for i := 0; i < n; i++ {
 		kind[i] = vChoice(3)
 		switch kind[i] {
 		case 0, 1:
-			url[i] = vChoice(hNURL)
-			idx[i] = vChoice(len(hIndexes))
+			// the two URLs are interchangeable: the first entry with a list names URL 0
+			if !firstURL {
+				url[i] = vChoice(hNURL)
+			}
+			firstURL = false
+			vTag("index")
+			idx[i] = vBytes(2)
 			c.CredentialStatus = append(c.CredentialStatus, StatusList2021Entry{
-				ID: hURLs[url[i]] + "#" + hIndexes[idx[i]], Type: StatusList2021EntryType, StatusPurpose: hPurpose(kind[i] == 0),
-				StatusListIndex: hIndexes[idx[i]], StatusListCredential: hURLs[url[i]],
+				ID: hURLs[url[i]] + "#e", Type: StatusList2021EntryType, StatusPurpose: hPurpose(kind[i] == 0),
+				StatusListIndex: string(idx[i]), StatusListCredential: hURLs[url[i]],
 			})
 		case 2:
 			c.CredentialStatus = append(c.CredentialStatus, hOtherStatus{ID: "https://issuer.example/status/1", Type: "RevocationList2020Status"})
 		}
+	}
+
+	if n >= 2 && vParam("fullworld", 0) == 0 {
+		// with several entries: the lists are stored and issued by this node (no refresh); one entry explores every case
+		for u := 0; u < hNURL; u++ {
+			vAssume(hAndC(w.rows[u].present, w.managed[u]))
+		}
+	}
+	for u := 0; u < hNURL; u++ {
+		vAssume(!w.remote[u].hasExpiration) // irrelevant for Verify; covered by H11c2
 	}
 
 	cs := hNewStatusList()
@@ -408,13 +438,11 @@ func H11c() {
 		if !row.present {
 			vAssert(fetched, "H11c.unknown_list_is_fetched: a list that is not stored was not fetched")
 		}
-		j := hIndexValue[idx[i]]
-		inRange := j >= 0 && j < 8*hListBytes
+		validIndex, j := hRefIndex(idx[i][0], idx[i][1])
+		inRange := hAllC(validIndex, j >= 0, j < 8*hListBytes)
+		jj := vIte(inRange, j, 0)
 		purposeOK := hOrC(hAndC(useRemote, m.purposeRevocation), hAllC(!useRemote, row.purposeRevocation))
-		bit := false
-		if inRange {
-			bit = hOrC(hAndC(useRemote, hRefBit(m.bits, j)), hAndC(!useRemote, hRefBit(row.bits, j)))
-		}
+		bit := hOrC(hAndC(useRemote, hRefBitSym(m.bits, jj)), hAndC(!useRemote, hRefBitSym(row.bits, jj)))
 		// outcome of this entry
 		isError := hOrC(!haveList, hOrC(!purposeOK, !inRange))
 		isRevoked := hAllC(haveList, purposeOK, inRange, bit)
@@ -476,8 +504,9 @@ func H11c_twin() {
 			StatusListIndex: "5", StatusListCredential: hURLs[i],
 		})
 	}
+	vAssume(hAndC(w.rows[0].present, w.managed[0]))
 	err := hNewStatusList().Verify(c)
-	if err != nil && errors.Is(err, types.ErrRevoked) && len(w.stored) == 1 && w.stored[0].SubjectID == hURLs[1] && w.rows[0].present {
+	if err != nil && errors.Is(err, types.ErrRevoked) && len(w.stored) == 1 && w.stored[0].SubjectID == hURLs[1] {
 		vAssert(false, "H11c_twin.reach: reachable")
 	}
 }
